@@ -69,6 +69,17 @@ class QM:
                 self.ext_done[key] = w
                 self.add_index(w, n1)
                 self.links.append(z3.Or(n1 != n2, F(n1) == G(n2), z3.And(w >= 0, w < n1, f(w) != g(w))))
+        # a sum of zeros is zero: F(n) = 0 or some term with index < n is not 0
+        for (kind, F, f, n) in self.big_apps:
+            if kind != "bigsum":
+                continue
+            key = ("zero-sum", F.name(), z3.simplify(n).get_id())
+            if key in self.ext_done:
+                continue
+            w = z3.Int(f"w!zsum[{F.name()}#{len(self.ext_done)}]")
+            self.ext_done[key] = w
+            self.add_index(w, n)
+            self.links.append(z3.Or(F(n) == 0, z3.And(w >= 0, w < n, f(w) != 0)))
 
     def facts(self, rounds=3):
         self.extensionality()
